@@ -13,7 +13,7 @@ import (
 // Returns false if num cannot be parsed into an int64 or float64.
 func castJSONNumber(num json.Number, intCallback intCallback, floatCallback floatCallback) (any, bool) {
 	if integer, err := num.Int64(); err == nil {
-		return intCallback(integer), true
+		return applyIntCallback(integer, intCallback, floatCallback), true
 	} else if float, err := num.Float64(); err == nil {
 		return floatCallback(float), true
 	}
@@ -24,6 +24,20 @@ func castJSONNumber(num json.Number, intCallback intCallback, floatCallback floa
 // getNodeInt32 extracts an int32 from node and returns it. Returns an error
 // if node is not an *ast.IntegerNode or its value is out of int32 range. The
 // meth and field params are used in error messages.
+// applyIntCallback applies intCallback to val. The negation and the absolute
+// value of math.MinInt64 wrap around to math.MinInt64 itself; when the integer
+// result of that value disagrees with floatCallback it returns the float64
+// result instead.
+func applyIntCallback(val int64, intCallback intCallback, floatCallback floatCallback) any {
+	res := intCallback(val)
+	if val == math.MinInt64 && floatCallback != nil {
+		if float := floatCallback(float64(val)); float64(res) != float {
+			return float
+		}
+	}
+	return res
+}
+
 func getNodeInt32(node ast.Node, meth any, field string) (int, error) {
 	var num int64
 	switch node := node.(type) {
